@@ -160,7 +160,20 @@ def cli_part(check, cases):
     for idx, c in enumerate(rng.sample(good, min(24 if check.thorough else 12, len(good)))):
         lang = LANGS[idx % len(LANGS)]
         with Scratch() as sc:
-            sc.write("proj/src/lib.rs", c["text"])
+            # how the file gets into the scanned tree: written there; a symbolic link to a file kept elsewhere (shared sources);
+            # a file in a nested directory next to an empty sibling directory
+            layout = ["plain", "symlink", "nested"][idx % 3]
+            check.count("cli-layout-" + layout)
+            if layout == "symlink":
+                sc.write("elsewhere/shared_models.rs", c["text"])
+                os.makedirs(sc.path("proj/src"), exist_ok=True)
+                os.symlink(sc.path("elsewhere/shared_models.rs"), sc.path("proj/src/lib.rs"))
+                sc.write("proj/src/neighbour.rs", "#[typeshare]\npub struct PlainNeighbourFile { pub n: u8 }\n")
+            elif layout == "nested":
+                sc.write("proj/src/deep/er/models.rs", c["text"])
+                os.makedirs(sc.path("proj/src/empty_dir"), exist_ok=True)
+            else:
+                sc.write("proj/src/lib.rs", c["text"])
             out = sc.path("out." + EXT[lang])
             tos = (["--target-os"] + c["tos"]) if c["tos"] else []
             r = run_cli(["--lang", lang, "-o", out] + lang_args(lang) + [sc.path("proj")] + tos, cwd=sc.dir)
@@ -179,6 +192,10 @@ def cli_part(check, cases):
                         if not any(rn in text for rn in renames):
                             check.violation("%s output does not mention the annotated %s %s" % (lang, kind, name),
                                             case={"source": c["text"], "lang": lang}, impl={"output": text[-3000:]}, failing_input=True)
+            elif r["rc"] == 0 and any(kind in ("struct", "enum", "alias") for kind, _, _ in exp):
+                check.violation("%s: the run succeeds (exit 0) but writes no output although the source (%s file) has %d annotated item(s)"
+                                % (lang, layout, len(exp)), case={"source": c["text"], "lang": lang, "layout": layout},
+                                impl={"rc": r["rc"], "stderr": r["err"][-800:]}, failing_input=True)
             elif r["rc"] not in (0, 1) or r["timed_out"]:
                 pass    # crashes are C07's business
 
